@@ -521,4 +521,30 @@ theorem commentText_nonempty (content : Bytes) (h0 : content ≠ []) :
   · rw [commentText_multi content h10]; rfl
   · rw [commentText_single content h0 h10]; rfl
 
+/-! ### the tree of token carriers -/
+
+theorem filterMap_id_map_option (g : Token → Token) (f : List (Option Token)) :
+    (f.map (Option.map g)).filterMap id = (f.filterMap id).map g := by
+  induction f with
+  | nil => rfl
+  | cons x r ih => cases x <;> simp [ih]
+
+theorem mapSections_tokens (g : Token → Token) :
+    (∀ n : Node, (n.mapSections g g g).tokens = n.tokens.map g)
+    ∧ (∀ l : List Node, Node.tokensList (Node.mapSectionsList g g g l) = (Node.tokensList l).map g) := by
+  have key : ∀ n : Node, (n.mapSections g g g).tokens = n.tokens.map g := by
+    intro n
+    induction n using Node.rec
+      (motive_2 := fun l => Node.tokensList (Node.mapSectionsList g g g l) = (Node.tokensList l).map g) with
+    | mk t i f c ih =>
+      simp only [Node.mapSections, Node.tokens, List.map_append, filterMap_id_map_option, ih]
+    | nil => rfl
+    | cons n r ihn ihr =>
+      simp only [Node.mapSectionsList, Node.tokensList, List.map_append, ihn, ihr]
+  refine ⟨key, ?_⟩
+  intro l
+  induction l with
+  | nil => rfl
+  | cons n r ih => simp only [Node.mapSectionsList, Node.tokensList, List.map_append, key n, ih]
+
 end DarkluaModel.C18
